@@ -157,7 +157,17 @@ func (lm *Lemma) pureSMT() bool {
 func (x *Exec) assumeAxioms(st *State) {
 	for _, lm := range x.CS.Lemmas {
 		if lm.Trusted && !lm.pureSMT() {
-			st.Assume(x.lemmaTerm(st, lm, true))
+			func() {
+				// axioms about types of another package do not apply here
+				defer func() {
+					if r := recover(); r != nil {
+						if _, ok := r.(specErr); !ok {
+							panic(r)
+						}
+					}
+				}()
+				st.Assume(x.lemmaTerm(st, lm, true))
+			}()
 		}
 	}
 }
